@@ -16,7 +16,12 @@ var vctx = context.Background()
 type symKey struct{ id uint64 }
 
 func (k symKey) Layer(branchFactor uint) uint8 { return verifLayer(k.id) }
-func (k symKey) Order(o Key) int               { return verifCmpU64(k.id, o.(symKey).id) }
+
+// Order: -1/0/+1 times CMPSCALE (default 1). Only the sign of a comparison is specified; a key
+// type whose Order returns a difference is as valid as one that returns -1/0/+1.
+func (k symKey) Order(o Key) int {
+	return verifCmpU64(k.id, o.(symKey).id) * verifBoundOr("CMPSCALE", 1)
+}
 
 var errSymCodec = errors.New("symcodec: bad input")
 
@@ -36,6 +41,11 @@ func symMarshal(i interface{}) ([]byte, error) {
 	case []byte:
 		// slice-typed (uncomparable) values: the bytes themselves (callers keep them non-empty)
 		return v, nil
+	case *uint64:
+		// pointer-typed values (comparable by identity, equal by reflect.DeepEqual): the pointee
+		b := make([]byte, 8)
+		verifPutU64(b, *v)
+		return b, nil
 	case Node:
 		// v1marshaler: the user marshaler encodes the bare Node
 		// like JSON, the encoding tells a nil slice from an empty one (null vs [])
@@ -165,6 +175,11 @@ func symUnmarshal(b []byte, out interface{}) error {
 	case *uint64:
 		*p = verifGetU64(b)
 		return nil
+	case **uint64:
+		nv := new(uint64)
+		*nv = verifGetU64(b)
+		*p = nv
+		return nil
 	}
 	return errSymCodec
 }
@@ -191,20 +206,20 @@ func symConfig(store Persist, cache NodeCache) *RemoteConfig {
 // ---- recording store ----
 
 type vStore struct {
-	prefix   string
-	names    []string
-	blobs    [][]byte
-	storeLog []string // every Store call, in completion order
-	loadLog  []string // every Load call
-	failLoad func(n int, name string) bool
-	failStore func(n int, name string) bool
-	failStoreBytes func(b []byte) bool
+	prefix                     string
+	names                      []string
+	blobs                      [][]byte
+	storeLog                   []string // every Store call, in completion order
+	loadLog                    []string // every Load call
+	failLoad                   func(n int, name string) bool
+	failStore                  func(n int, name string) bool
+	failStoreBytes             func(b []byte) bool
 	started, completed, failed int
-	nLoad    int
-	nStore   int
-	yieldInStore bool
-	checkConflicts bool
-	conflict bool // some name was stored twice with different bytes
+	nLoad                      int
+	nStore                     int
+	yieldInStore               bool
+	checkConflicts             bool
+	conflict                   bool // some name was stored twice with different bytes
 }
 
 var errVStoreMissing = errors.New("vstore: no such node")
@@ -282,9 +297,9 @@ func (s *vStore) NodeURLPrefix() string { return s.prefix }
 // ---- unbounded node cache ----
 
 type vCache struct {
-	keys []string
-	vals []interface{}
-	cap  int // 0 = unbounded; otherwise FIFO eviction
+	keys   []string
+	vals   []interface{}
+	cap    int // 0 = unbounded; otherwise FIFO eviction
 	frozen bool
 }
 
